@@ -291,6 +291,52 @@ def eval_order(first, bases):
     raise RuntimeError("validation-order driver failed: %s" % p.stderr[-1200:])
 
 
+LOCALE_DRIVER = r"""
+import json, locale, sys
+sys.path.insert(0, sys.argv[1]); sys.path.insert(0, sys.argv[2])
+from mc.core.runner import bind_repo
+bind_repo()
+from mc.build import ci as CI, im as IM, ti as TI, misc as MISC
+out = {"encoding": locale.getpreferredencoding(False)}
+def attempt(name, fn):
+    try:
+        out[name] = ["ok", fn()]
+    except Exception as exc:
+        out[name] = ["exc", type(exc).__name__]
+text = "N\u00e4me \u65e5\u672c"
+attempt("composeinfo", lambda: CI.build(CI.apply_spec(CI.seed_flat(), ["rel", "name", text])).dumps())
+attempt("treeinfo", lambda: TI.dumps(TI.build(TI.apply_spec(TI.seed_flat(), ["rel", "name", text]))))
+def di():
+    d = MISC.discinfo(); d.description = text + " 21"; return d.dumps()
+attempt("discinfo", di)
+def im():
+    spec = IM.seed_one(); spec["images"][0]["subvariant"] = text; return IM.build(spec).dumps()
+attempt("images", im)
+print("LOCALE " + json.dumps(out))
+"""
+
+
+def eval_locale(lc):
+    """valid objects with non-ASCII text written to a STRING in an interpreter whose locale encoding is `lc` (None: UTF-8 mode)"""
+    import json
+    import os
+    import subprocess
+    import sys
+    from mc.core.runner import REPO, VERIF
+    env = dict(os.environ, PYTHONDONTWRITEBYTECODE="1")
+    if lc is None:
+        env["PYTHONUTF8"] = "1"
+    else:
+        env.update({"PYTHONUTF8": "0", "PYTHONCOERCECLOCALE": "0", "LC_ALL": lc, "LANG": lc})
+        env.pop("LC_CTYPE", None)
+    p = subprocess.run([sys.executable, "-X", "utf8=%d" % (1 if lc is None else 0), "-c", LOCALE_DRIVER, REPO, VERIF], env=env,
+                       stdout=subprocess.PIPE, stderr=subprocess.PIPE, universal_newlines=True, encoding="ascii", errors="backslashreplace", timeout=300)
+    for line in p.stdout.splitlines():
+        if line.startswith("LOCALE "):
+            return json.loads(line[7:])
+    raise RuntimeError("locale driver failed: %s" % p.stderr[-1200:])
+
+
 def units(tier, seed):
     bases = QUICK_BASES if tier == "quick" else sorted(BASES)
     us = [("corrupt", b) for b in bases]
@@ -299,6 +345,7 @@ def units(tier, seed):
         for name, _ in mod.SEEDS:
             us.append(("converse", fmt, name))
     us.append(("enum",))
+    us.append(("locale",))
     if tier == "thorough":
         # every state within one edit of every seed is a base object, too
         for fmt, mod in (("ci", CI), ("im", IM), ("ti", TI)):
@@ -312,6 +359,22 @@ def units(tier, seed):
 
 
 def run_unit(unit, acc):
+    if unit[0] == "locale":
+        ref = eval_locale(None)
+        o = eval_locale("C")
+        acc.ev(4)
+        acc.extra["ascii_locale_encoding"] = o["encoding"]
+        for fmt in ("composeinfo", "treeinfo", "discinfo", "images"):
+            acc.nontriv(("locale", fmt))
+            if ref[fmt][0] != "ok":
+                raise RuntimeError("the non-ASCII %s object is not written even in UTF-8 mode: %s" % (fmt, ref[fmt]))
+            if o[fmt] != ref[fmt]:
+                acc.violation("valid-refused:locale", {"kind": "locale", "lc": "C", "fmt": fmt}, {"differs_from_utf8_mode": True, "result": o[fmt][0]},
+                              "a valid %s object with non-ASCII text, written to a string in an interpreter whose locale encoding is %s: %s"
+                              % (fmt, o["encoding"], o[fmt][1] if o[fmt][0] != "ok" else "text differs from the one written in UTF-8 mode"))
+            else:
+                acc.outcome("converse:written-under-ascii-locale")
+        return
     if unit[0] == "corrupt-univ":
         import json
         _, fmt, name, edits = unit
@@ -411,6 +474,9 @@ def run_unit(unit, acc):
 
 
 def replay(case):
+    if case["kind"] == "locale":
+        ref, o = eval_locale(None), eval_locale(case["lc"])
+        return {"differs_from_utf8_mode": o[case["fmt"]] != ref[case["fmt"]], "result": o[case["fmt"]][0]}
     if case["kind"] == "corrupt":
         return eval_corruption(case["base"], case["label"], case["vi"])
     if case["kind"] == "order":
